@@ -482,9 +482,53 @@ def rule_m17(repo, rid='C04.M17'):
                 '%s:%d' % (mi.eval.module.rel, mi.eval.node.lineno))
     return res
 
+def rule_m18(repo):
+    """Where the last element of a macro's argument list is the goal and the elements in front of it are the literals the
+    step works with, both methods have to divide the list that way.  If one of them reads `args[-1]` apart and walks over
+    `args[:-1]` only, the other must not walk over the whole of `args`: it would treat the goal as one more literal, and the
+    expansion proves another clause than the evaluation reports (imp_to_or: .. | ~~goal | C)."""
+    res = RuleResult('C04.M18', 'evaluation and expansion divide the argument list in the same way (literals / goal)', floor=4)
+
+    def domains(fn):
+        if len(fn.params()) < 2:
+            return [], [], False
+        p_ = fn.params()[1]
+        whole, part, last = [], [], False
+        for n in ast.walk(fn.node):
+            its = [n.iter] if isinstance(n, (ast.For, ast.comprehension)) else []
+            for it in its:
+                while isinstance(it, ast.Call) and isinstance(it.func, ast.Name) and it.func.id in ('reversed', 'enumerate', 'list', 'tuple') and it.args:
+                    it = it.args[0]
+                if is_name(it, p_):
+                    whole.append(n)
+                if isinstance(it, ast.Subscript) and is_name(it.value, p_) and isinstance(it.slice, ast.Slice):
+                    part.append(src(it))
+            if isinstance(n, ast.Subscript) and is_name(n.value, p_) and isinstance(n.slice, ast.UnaryOp) and isinstance(n.slice.op, ast.USub) and \
+                    isinstance(n.slice.operand, ast.Constant) and n.slice.operand.value == 1:
+                last = True
+        return whole, part, last
+    for mi in macro_index(repo):
+        if mi.eval is None or mi.gpt is None:
+            continue
+        we, pe, le = domains(mi.eval)
+        wg, pg, lg = domains(mi.gpt)
+        if not (we or pe or wg or pg):
+            continue
+        bad = None
+        if pe and le and not we and wg and not pg:
+            bad = ('evaluation', pe[0], 'expansion', wg[0])
+        if pg and lg and not wg and we and not pe:
+            bad = ('expansion', pg[0], 'evaluation', we[0])
+        res.add('%s :: eval-vs-expansion :: argument-list-divided-alike' % mi.key, bad is None,
+                'both walk over the same part of the argument list' if bad is None else
+                'the %s takes the last argument apart and walks over `%s`, the %s walks over the whole list (line %d): the goal is treated as one more '
+                'literal and the two state different clauses' % (bad[0], bad[1], bad[2], getattr(bad[3], 'lineno', None) or bad[3].iter.lineno),
+                '%s:%d' % (mi.eval.module.rel, mi.eval.node.lineno), nontrivial=bad is not None)
+    return res
+
 
 def rules(repo):
     m1 = mr.hyps_rule(repo, 'C04.M1', mr.all_macros, floor=95)
     m2 = mr.zip_rule(repo, 'C04.M2', mr.macro_eval_functions(repo), floor=4)
     return [m1, m2, rule_m3(repo), rule_m5(repo), rule_m6(repo), rule_m7(repo), rule_m8(repo), rule_m9(repo), rule_m10(repo), mr.expansion_uses_rule(repo, 'C04.M11', mr.all_macros, floor=25),
-            mr.argument_dependence_rule(repo, 'C04.M12', mr.all_macros, floor=30), rule_m13(repo), rule_m14(repo), rule_m15(repo), rule_m16(repo), rule_m17(repo)]
+            mr.argument_dependence_rule(repo, 'C04.M12', mr.all_macros, floor=30), rule_m13(repo), rule_m14(repo), rule_m15(repo), rule_m16(repo), rule_m17(repo), rule_m18(repo)]
